@@ -100,6 +100,14 @@ def cli_entry_cases():
                         out.append({'kind': 'M', 'argv': argv + ['in.rmu'], 'stdin': '', 'files': files, 'rimurc': rc})
                     else:
                         out.append({'kind': 'M', 'argv': argv, 'stdin': doc, 'files': files, 'rimurc': rc})
+            # inputs of other kinds around the untrusted source: an .html file is passed through as it is, whatever the mode;
+            # the source that follows it (a file, standard input given as '-' or by default) is still rendered in the mode
+            banner = ['banner.html', '<div class="banner">b</div>']
+            for argv, stdin, files in ((['banner.html', '-'], doc, [banner]), (['--prepend-file', 'banner.html'], doc, [banner]),
+                                       (['banner.html', 'in.rmu'], '', [banner, ['in.rmu', doc]]),
+                                       (['in.rmu', 'banner.html', '-'], doc, [banner, ['in.rmu', doc]]),
+                                       (['-', 'banner.html'], doc, [banner])):
+                out.append({'kind': 'M', 'argv': ['--safe-mode', sm] + argv, 'stdin': stdin, 'files': files, 'rimurc': None})
     return out
 
 
